@@ -14,7 +14,8 @@ EXPLANATION = (
     "gated mutator runs; (b) no function of pass5.c reaches an inode, directory-block, extent or xattr writer; (c) a "
     "checksum-only mismatch of a directory leaf / inode leads to rewriting (checksum recomputed), not to clearing; (d) wherever "
     "two extents are merged, the merge is conditional on their UNINIT flags being equal; (e) the counters behind the inode scan's per-block "
-    "'mostly garbage' verdict are zeroed whenever the scan leaves an inode-table block.  Decides gating and layering on every "
+    "'mostly garbage' verdict are zeroed whenever the scan leaves an inode-table block; (f) a library request whose failure a "
+    "pass discards without a report, and which can fail with a checksum error, is made with checksum errors ignored.  Decides gating and layering on every "
     "path; not that -D / extent rebuilding preserve names and bytes.")
 
 FILES = ("e2fsck/pass1.c", "e2fsck/pass1b.c", "e2fsck/pass2.c", "e2fsck/pass3.c", "e2fsck/pass4.c", "e2fsck/pass5.c",
@@ -282,6 +283,52 @@ def run(world, rep, tier, only=None):
             rep.ob("C05.e", site(cs, "%s reset when the scan leaves a block after %s" % (c, what)),
                    not leak, "every path from there back to the loop head stores %s = 0 (counters feeding the per-block "
                    "verdicts: %s)" % (c, sorted(counters)))
+
+    # ------------------------------------------------------------------ C05.f a checksum-only defect does not silently change what is processed
+    # Where a pass asks the library for something, the request can fail with *_CSUM_INVALID, and the failure is
+    # discarded without a report (errcode = 0; return), the request must be made with checksum errors ignored:
+    # pass 1 deals with the checksum itself ("passes checks, but checksum does not match"), and skipping the rest
+    # of the inode's processing would send its healthy children to lost+found.
+    plain = prog
+    may_csum = plain.may(lambda f_, n_: n_.ev and f_.file.startswith("lib/ext2fs") and any(
+        m_.endswith("_CSUM_INVALID") for m_ in T.macros(n_.ev.get("x") or n_.ev.get("rhs") or {})))
+    n_sw = 0
+    for f_ in plain.functions():
+        if not f_.file.startswith("e2fsck/pass"):
+            continue
+        for n_ in f_.events("S"):
+            lhs = T.path(n_.ev["lhs"])
+            if not lhs or not (lhs.endswith("errcode") or lhs in ("retval", "err")):
+                continue
+            if n_.ev.get("o") != "=" or T.const(n_.ev.get("rhs")) != 0:
+                continue
+            ctl = [(b_, t_, a_) for (b_, t_, a_) in f_.control_literals(n_) if t_ and T.path(a_) == lhs]
+            if not ctl:
+                continue
+            litend = f_.block_end(ctl[-1][0])
+            stores_ = [m_ for m_ in f_.events("S") if T.path(m_.ev["lhs"]) == lhs and m_ is not n_]
+            for m_ in stores_:
+                r0 = T.strip(m_.ev.get("rhs")) if isinstance(m_.ev.get("rhs"), dict) else None
+                if not (isinstance(r0, dict) and r0.get("k") == "c" and r0.get("fn")):
+                    continue
+                others = [x_ for x_ in stores_ if x_ is not m_]
+                if litend not in f_.reach(f_.after(m_), avoid=others) or not f_.dominated_by(litend, [m_]):
+                    continue
+                if not any(g_.key in may_csum for g_ in plain.lookup(r0["fn"], f_)):
+                    continue
+                reported = [c_ for c_ in calls_to(f_, "fix_problem") if c_ in f_.reach(f_.after(m_), avoid=[n_]) and
+                            n_ in f_.reach(f_.after(c_))]
+                if reported:
+                    rep.examined()
+                    continue
+                n_sw += 1
+                sets = [s_ for s_ in f_.events("S") if T.last_field(s_.ev["lhs"]) and T.last_field(s_.ev["lhs"])[1] == "flags"
+                        and store_sets_bits(s_, "EXT2_FLAG_IGNORE_CSUM_ERRORS")]
+                rep.ob("C05.f", site(f_, "silently discarded failure of %s is asked for with checksum errors ignored" % r0["fn"]),
+                       bool(sets) and f_.dominated_by(m_, sets),
+                       "fs->flags |= EXT2_FLAG_IGNORE_CSUM_ERRORS dominates the call whose error is dropped at line %d without "
+                       "a fix_problem()" % n_.line)
+    rep.floor("C05.f silently discarded library failures that may be checksum errors", n_sw, 1)
 
 
 def _chain_zero(n):
